@@ -1162,7 +1162,13 @@ class StateEngine(object):
                         if i < len(results) and results[i] == None:
                             results[i] = "__TERMINATED__"
 
-                if parent_terminated:
+                """
+                If this Map/Parallel state has itself already failed it has
+                reported that to its parent, or its Retry/Catch has carried
+                the parent's branch on. This leftover event is then just
+                discarded; it must not end that branch of the parent again.
+                """
+                if parent_terminated and not branch_results.get("failed"):
                     #print("Terminating parent branch {}".format(parent_index))
                     parent_results[parent_index] = "__TERMINATED__"
 
@@ -3357,6 +3363,7 @@ class StateEngine(object):
             if error:
                 # Set range to terminate subsequent branches/iterations
                 branch_results["terminated"] = str(start) + ":" + str(end)
+                branch_results["failed"] = True
 
                 """
                 If the error has been caused by a Task state failure we reset
